@@ -131,6 +131,11 @@ pub enum AtomKind {
     ELit,
     TVar,
     FVar,
+    /// a stored program (its body is a callback) referenced by name: evaluated lazily, only
+    /// when the operand it stands in is evaluated
+    TProg,
+    FProg,
+    EProg,
 }
 
 pub const ATOMS9: [AtomKind; 9] = [
@@ -146,6 +151,24 @@ pub const ATOMS9: [AtomKind; 9] = [
 ];
 
 pub const ATOMS4: [AtomKind; 4] = [AtomKind::TCb, AtomKind::FCb, AtomKind::ECb, AtomKind::Unbound];
+
+/// stored-program operands against callbacks and the unbound name
+pub const ATOMS_PROG: [AtomKind; 6] = [AtomKind::TProg, AtomKind::FProg, AtomKind::EProg, AtomKind::TCb, AtomKind::ECb, AtomKind::Unbound];
+
+const ATOMS12: [AtomKind; 12] = [
+    AtomKind::TCb,
+    AtomKind::FCb,
+    AtomKind::ECb,
+    AtomKind::Unbound,
+    AtomKind::TLit,
+    AtomKind::FLit,
+    AtomKind::ELit,
+    AtomKind::TVar,
+    AtomKind::FVar,
+    AtomKind::TProg,
+    AtomKind::FProg,
+    AtomKind::EProg,
+];
 
 /// shape of a logical tree with atom holes
 #[derive(Clone, Debug)]
@@ -300,11 +323,22 @@ pub fn atom_of(k: AtomKind, b: &mut Builder, r: &mut Rng) -> E {
             let v = r.pick(&falsy_pool()).clone();
             b.bound(v)
         }
+        AtomKind::TProg | AtomKind::FProg | AtomKind::EProg => {
+            let ans = match k {
+                AtomKind::TProg => Answer::V(r.pick(&truthy_pool()).clone()),
+                AtomKind::FProg => Answer::V(r.pick(&falsy_pool()).clone()),
+                _ => Answer::Fail(inj_class(r)),
+            };
+            let body = b.cb(vec![ans], vec![]);
+            let name = format!("q{}", b.case.programs.len());
+            b.case.programs.insert(name.clone(), body);
+            E::Prog(name)
+        }
     }
 }
 
 fn rand_atom(b: &mut Builder, r: &mut Rng) -> E {
-    let k = *r.pick(&ATOMS9);
+    let k = *r.pick(&ATOMS12);
     atom_of(k, b, r)
 }
 
@@ -341,14 +375,19 @@ pub fn gen05_expr(b: &mut Builder, r: &mut Rng, depth: u32) -> E {
             // predicate position of all / exists / filter: truthiness of the elements
             let n = r.usize(5);
             let xs: Vec<V> = (0..n).map(|_| any_value(r)).collect();
-            let k = *r.pick(&[MacroKind::All, MacroKind::Exists, MacroKind::Filter, MacroKind::ExistsOne]);
+            let k = *r.pick(&[MacroKind::All, MacroKind::Exists, MacroKind::Filter, MacroKind::ExistsOne, MacroKind::MapIf]);
             let range = if r.chance(1, 2) { E::Lit(V::List(xs)) } else { b.bound(V::List(xs)) };
             let body = if r.chance(1, 2) {
                 E::var("x")
             } else {
                 E::or(E::var("x"), gen05_expr(b, r, 0))
             };
-            E::mac(k, range, "x", vec![body])
+            if k == MacroKind::MapIf {
+                // the predicate of the three-argument map
+                E::mac(k, range, "x", vec![body, E::List(vec![E::var("x")])])
+            } else {
+                E::mac(k, range, "x", vec![body])
+            }
         }
     }
 }
@@ -599,7 +638,12 @@ pub fn gen07_random(seed: u64) -> EnvCase {
         let nk = r.usize(7);
         let mut m = BTreeMap::new();
         for i in 0..nk {
-            let k = format!("{}{}", r.pick(&["k", "key", "z", "a", "m"]), i * 7 % 5 + i);
+            // some keys differ only in letter case, some are prefixes of others
+            let k = if r.chance(1, 2) {
+                format!("{}{}", r.pick(&["k", "key", "z", "a", "m"]), i * 7 % 5 + i)
+            } else {
+                format!("{}{}", r.pick(&["k", "K", "key", "Key", "KEY", "a", "A", "ab", "aB", "Ab", "AB"]), r.pick(&["", "1"]))
+            };
             m.insert(k, any_value(&mut r));
         }
         let n = m.len();
@@ -724,10 +768,22 @@ pub enum PathCfg {
     RootFails,
     /// the root is a callback returning the tree
     RootCallback,
+    /// the root is the name of another stored program that evaluates to the tree
+    RootProgram,
+    /// the root is the name of another stored program that fails with an injected class
+    RootProgramFails,
 }
 
 pub fn path_cfgs(d: usize) -> Vec<PathCfg> {
-    let mut v = vec![PathCfg::Present, PathCfg::NullLeaf, PathCfg::RootUnbound, PathCfg::RootFails, PathCfg::RootCallback];
+    let mut v = vec![
+        PathCfg::Present,
+        PathCfg::NullLeaf,
+        PathCfg::RootUnbound,
+        PathCfg::RootFails,
+        PathCfg::RootCallback,
+        PathCfg::RootProgram,
+        PathCfg::RootProgramFails,
+    ];
     for l in 1..=d {
         v.push(PathCfg::MissingAt(l));
     }
@@ -789,6 +845,19 @@ pub fn build_path(b: &mut Builder, r: &mut Rng, d: usize, cfg: PathCfg, mask: u3
             b.cb(vec![Answer::Fail(c)], vec![])
         }
         PathCfg::RootCallback => b.cb(vec![Answer::V(tree)], vec![]),
+        PathCfg::RootProgram | PathCfg::RootProgramFails => {
+            let body = if cfg == PathCfg::RootProgramFails {
+                let c = inj_class(r);
+                b.cb(vec![Answer::Fail(c)], vec![])
+            } else if r.chance(1, 2) {
+                b.cb(vec![Answer::V(tree)], vec![])
+            } else {
+                b.bound(tree)
+            };
+            let name = format!("r{}", b.case.programs.len());
+            b.case.programs.insert(name.clone(), body);
+            E::Prog(name)
+        }
         _ => b.bound(tree),
     };
     let mut e = root;
